@@ -264,25 +264,55 @@ package types
 //@   ensures [roundtrip] forall id: GroupID {validBech32(id.Owner)} :: carriesGID(attrs, id) && canonicalAddr(id.Owner) ==> result1 == nil && result0 == id
 //@ func ParseEVDeploymentVersion
 //@   ensures [roundtrip] forall v: str {hexEnc(v)} :: attrHas(attrs, "version") && attrVal(attrs, "version") == hexEnc(v) ==> result1 == nil && result0 == v
+//@ lemma attrsDepClosed(attrs: []sdk.Attribute)
+//@   requires len(attrs) == 4 && attrs[0].Key == "module" && attrs[1].Key == "action" && attrs[2].Key == "owner" && attrs[3].Key == "dseq"
+//@   ensures attrHas(attrs, "module") && attrVal(attrs, "module") == attrs[0].Value && attrHas(attrs, "action") && attrVal(attrs, "action") == attrs[1].Value && attrHas(attrs, "owner") && attrVal(attrs, "owner") == attrs[2].Value && attrHas(attrs, "dseq") && attrVal(attrs, "dseq") == attrs[3].Value
+//@   trigger attrFirst(attrs, "dseq", len(attrs))
+//@   trigger attrFirst(attrs, "module", len(attrs))
+//@   trigger attrFirst(attrs, "owner", len(attrs))
+//@ lemma attrsDepVer(attrs: []sdk.Attribute)
+//@   requires len(attrs) == 5 && attrs[0].Key == "module" && attrs[1].Key == "action" && attrs[2].Key == "version" && attrs[3].Key == "owner" && attrs[4].Key == "dseq"
+//@   ensures attrHas(attrs, "module") && attrVal(attrs, "module") == attrs[0].Value && attrHas(attrs, "action") && attrVal(attrs, "action") == attrs[1].Value && attrHas(attrs, "version") && attrVal(attrs, "version") == attrs[2].Value && attrHas(attrs, "owner") && attrVal(attrs, "owner") == attrs[3].Value && attrHas(attrs, "dseq") && attrVal(attrs, "dseq") == attrs[4].Value
+//@   trigger attrFirst(attrs, "dseq", len(attrs))
+//@   trigger attrFirst(attrs, "module", len(attrs))
+//@   trigger attrFirst(attrs, "version", len(attrs))
+//@ lemma attrsGrp(attrs: []sdk.Attribute)
+//@   requires len(attrs) == 5 && attrs[0].Key == "module" && attrs[1].Key == "action" && attrs[2].Key == "owner" && attrs[3].Key == "dseq" && attrs[4].Key == "gseq"
+//@   ensures attrHas(attrs, "module") && attrVal(attrs, "module") == attrs[0].Value && attrHas(attrs, "action") && attrVal(attrs, "action") == attrs[1].Value && attrHas(attrs, "owner") && attrVal(attrs, "owner") == attrs[2].Value && attrHas(attrs, "dseq") && attrVal(attrs, "dseq") == attrs[3].Value && attrHas(attrs, "gseq") && attrVal(attrs, "gseq") == attrs[4].Value
+//@   trigger attrFirst(attrs, "gseq", len(attrs))
+//@   trigger attrFirst(attrs, "module", len(attrs))
+//@   trigger attrFirst(attrs, "owner", len(attrs))
 //@ func (EventDeploymentCreated).ToSDKEvent
+//@   uses attrsDepVer
 //@   ensures assumed evSig(result) == sigDeployment(1, ev.ID)
+//@   ensures [shape] len(evAttrs(result)) == 5 && evAttrs(result)[0].Key == "module" && evAttrs(result)[0].Value == "deployment" && evAttrs(result)[1].Key == "action" && evAttrs(result)[1].Value == "deployment-created" && evAttrs(result)[2].Key == "version" && evAttrs(result)[2].Value == hexEnc(ev.Version) && evAttrs(result)[3].Key == "owner" && evAttrs(result)[3].Value == ev.ID.Owner && evAttrs(result)[4].Key == "dseq" && evAttrs(result)[4].Value == itoa(ev.ID.DSeq)
 //@   ensures evType(result) == "akash.v1" && carriesHead(evAttrs(result), "deployment-created") && carriesDID(evAttrs(result), ev.ID)
 //@        && attrHas(evAttrs(result), "version") && attrVal(evAttrs(result), "version") == hexEnc(ev.Version)
 //@ func (EventDeploymentUpdated).ToSDKEvent
+//@   uses attrsDepVer
 //@   ensures assumed evSig(result) == sigDeployment(2, ev.ID)
+//@   ensures [shape] len(evAttrs(result)) == 5 && evAttrs(result)[0].Key == "module" && evAttrs(result)[0].Value == "deployment" && evAttrs(result)[1].Key == "action" && evAttrs(result)[1].Value == "deployment-updated" && evAttrs(result)[2].Key == "version" && evAttrs(result)[2].Value == hexEnc(ev.Version) && evAttrs(result)[3].Key == "owner" && evAttrs(result)[3].Value == ev.ID.Owner && evAttrs(result)[4].Key == "dseq" && evAttrs(result)[4].Value == itoa(ev.ID.DSeq)
 //@   ensures evType(result) == "akash.v1" && carriesHead(evAttrs(result), "deployment-updated") && carriesDID(evAttrs(result), ev.ID)
 //@        && attrHas(evAttrs(result), "version") && attrVal(evAttrs(result), "version") == hexEnc(ev.Version)
 //@ func (EventDeploymentClosed).ToSDKEvent
+//@   uses attrsDepClosed
 //@   ensures assumed evSig(result) == sigDeployment(3, ev.ID)
+//@   ensures [shape] len(evAttrs(result)) == 4 && evAttrs(result)[0].Key == "module" && evAttrs(result)[0].Value == "deployment" && evAttrs(result)[1].Key == "action" && evAttrs(result)[1].Value == "deployment-closed" && evAttrs(result)[2].Key == "owner" && evAttrs(result)[2].Value == ev.ID.Owner && evAttrs(result)[3].Key == "dseq" && evAttrs(result)[3].Value == itoa(ev.ID.DSeq)
 //@   ensures evType(result) == "akash.v1" && carriesHead(evAttrs(result), "deployment-closed") && carriesDID(evAttrs(result), ev.ID)
 //@ func (EventGroupClosed).ToSDKEvent
+//@   uses attrsGrp
 //@   ensures assumed evSig(result) == sigGroup(1, ev.ID)
+//@   ensures [shape] len(evAttrs(result)) == 5 && evAttrs(result)[0].Key == "module" && evAttrs(result)[0].Value == "deployment" && evAttrs(result)[1].Key == "action" && evAttrs(result)[1].Value == "group-closed" && evAttrs(result)[2].Key == "owner" && evAttrs(result)[2].Value == ev.ID.Owner && evAttrs(result)[3].Key == "dseq" && evAttrs(result)[3].Value == itoa(ev.ID.DSeq) && evAttrs(result)[4].Key == "gseq" && evAttrs(result)[4].Value == itoa(ev.ID.GSeq)
 //@   ensures evType(result) == "akash.v1" && carriesHead(evAttrs(result), "group-closed") && carriesGID(evAttrs(result), ev.ID)
 //@ func (EventGroupPaused).ToSDKEvent
+//@   uses attrsGrp
 //@   ensures assumed evSig(result) == sigGroup(2, ev.ID)
+//@   ensures [shape] len(evAttrs(result)) == 5 && evAttrs(result)[0].Key == "module" && evAttrs(result)[0].Value == "deployment" && evAttrs(result)[1].Key == "action" && evAttrs(result)[1].Value == "group-paused" && evAttrs(result)[2].Key == "owner" && evAttrs(result)[2].Value == ev.ID.Owner && evAttrs(result)[3].Key == "dseq" && evAttrs(result)[3].Value == itoa(ev.ID.DSeq) && evAttrs(result)[4].Key == "gseq" && evAttrs(result)[4].Value == itoa(ev.ID.GSeq)
 //@   ensures evType(result) == "akash.v1" && carriesHead(evAttrs(result), "group-paused") && carriesGID(evAttrs(result), ev.ID)
 //@ func (EventGroupStarted).ToSDKEvent
+//@   uses attrsGrp
 //@   ensures assumed evSig(result) == sigGroup(3, ev.ID)
+//@   ensures [shape] len(evAttrs(result)) == 5 && evAttrs(result)[0].Key == "module" && evAttrs(result)[0].Value == "deployment" && evAttrs(result)[1].Key == "action" && evAttrs(result)[1].Value == "group-started" && evAttrs(result)[2].Key == "owner" && evAttrs(result)[2].Value == ev.ID.Owner && evAttrs(result)[3].Key == "dseq" && evAttrs(result)[3].Value == itoa(ev.ID.DSeq) && evAttrs(result)[4].Key == "gseq" && evAttrs(result)[4].Value == itoa(ev.ID.GSeq)
 //@   ensures evType(result) == "akash.v1" && carriesHead(evAttrs(result), "group-started") && carriesGID(evAttrs(result), ev.ID)
 // every event this module emits parses back to the typed event that was emitted
 //@ func ParseEvent
@@ -302,7 +332,7 @@ package types
 //@   ensures [gstarted] forall id: GroupID {validBech32(id.Owner)} :: ev.Type == "akash.v1" && ev.Module == "deployment" && ev.Action == "group-started" && old(carriesGID(ev.Attributes, id))
 //@        && canonicalAddr(id.Owner) ==> result1 == nil && typeis(result0, EventGroupStarted) && unbox(result0, EventGroupStarted).ID == id
 
-//@ property C16 := DeploymentIDEVAttributes#*, GroupIDEVAttributes#*, ParseEVDeploymentID#*, ParseEVGroupID#*, ParseEVDeploymentVersion#*, ParseEvent#*,
+//@ property C16 := lemma:attrsDepClosed, lemma:attrsDepVer, lemma:attrsGrp, DeploymentIDEVAttributes#*, GroupIDEVAttributes#*, ParseEVDeploymentID#*, ParseEVGroupID#*, ParseEVDeploymentVersion#*, ParseEvent#*,
 //@     (EventDeploymentCreated).ToSDKEvent#*, (EventDeploymentUpdated).ToSDKEvent#*, (EventDeploymentClosed).ToSDKEvent#*,
 //@     (EventGroupClosed).ToSDKEvent#*, (EventGroupPaused).ToSDKEvent#*, (EventGroupStarted).ToSDKEvent#*,
 //@     NewEventDeploymentCreated#*, NewEventDeploymentUpdated#*, NewEventDeploymentClosed#*, NewEventGroupClosed#*, NewEventGroupPaused#*, NewEventGroupStarted#*
